@@ -37,6 +37,60 @@ def items(text):
     return [int(l[1:-1]) for l in text.split('\n') if l.startswith('I')]
 
 
+def clang_pass_part(ctx):
+    """the one-instance-at-a-time driver (ClangPass): --counter walks 1, 2, …; the output of a run is used only when the
+    tool exited 0 (a run that failed or died from a signal leaves the file alone and is not reported OK); out of range = STOP"""
+    for k in range(25 if ctx.tier == 'quick' else 250):
+        n = ctx.rng.randint(1, 7)
+        code = ctx.rng.choice([255, 1, 2, 3, 254, -11, -6, -9, -15])
+        scen = {'fail_at': [ctx.rng.randint(1, n)] if k % 3 else [], 'fail_code': code}
+        clang_pass_case(ctx, n, scen)
+
+
+def clang_pass_case(ctx, n, scen):
+    from cvise.passes.abstract import PassResult, ProcessEventNotifier
+    code = scen.get('fail_code')
+    if True:
+        d = fresh_dir(ctx, 'c15c')
+        setup(d, scen)
+        path = d / 'a.c'
+        p = ClangPass('remove-unused-function', {'clang_delta': TOOL})
+        p.user_clang_delta_std = None
+        p.max_transforms = None
+        sc = {'kind': 'clang', 'n': n, 'tool': scen}
+        state = p.new(str(path))
+        for step in range(n + 2):
+            path.write_text(build(n))
+            before = path.read_text()
+            try:
+                res, st2 = p.transform(str(path), state, ProcessEventNotifier(None))
+            except Exception as e:  # noqa
+                ctx.report('pass-raised', f'ClangPass.transform raised {type(e).__name__}: {e}', sc)
+                break
+            after = path.read_text()
+            c = state
+            ctx.count()
+            if c in scen['fail_at']:
+                if res == PassResult.OK:
+                    ctx.report('failed-tool-run-reported-OK', f'ClangPass: the tool failed (status {code}) on --counter={c} but transform returned OK', sc)
+                    break
+                if after != before:
+                    ctx.report('output-of-failed-tool-run-used', f'ClangPass: tool status {code} on --counter={c} but the candidate file was rewritten', sc)
+                    break
+            elif c <= n:
+                want = ''.join(l + '\n' for i, l in enumerate(before.split('\n')[:-1]) if i != [j for j, x in enumerate(before.split('\n')) if x.startswith('I')][c - 1])
+                if res != PassResult.OK or after.rstrip('\n') != want.rstrip('\n'):
+                    ctx.report('clang-pass-candidate-is-not-the-tool-output', f'ClangPass --counter={c} of {n}: result {res}, file {after!r}', sc)
+                    break
+            else:
+                if res != PassResult.STOP or after != before:
+                    ctx.report('counter-beyond-the-instances-not-STOP', f'ClangPass --counter={c} of {n}: result {res}', sc)
+                    break
+            state = p.advance(str(path), state)
+        ctx.nontrivial(('clangpass', n, tuple(scen['fail_at']), code))
+        shutil.rmtree(d, ignore_errors=True)
+
+
 def mk(arg='remove-unused-function', user_std=None):
     p = ClangBinarySearchPass(arg, {'clang_delta': TOOL})
     p.user_clang_delta_std = user_std
@@ -139,6 +193,10 @@ def run(ctx):
     logging.getLogger().setLevel(logging.ERROR)
     if ctx.replay:
         o = json.load(open(ctx.replay))
+        if o.get('kind') == 'clang':
+            clang_pass_case(ctx, o['n'], o['tool'])
+            print('replayed ->', 'fails' if ctx.violations else 'holds')
+            return 1 if ctx.violations else 0
         req = o['test'].get('required')
         ti = (lambda its: all(r in its for r in req)) if req is not None else (lambda its: False)
         loop, final, cl, p = run_case(ctx, o['n'], ti, o['tool'])
@@ -232,6 +290,7 @@ def run(ctx):
             ctx.report('wrong-standard-chosen:second-start-on-the-same-file', f'second new() on the same file: counts {dict(zip(STDS, counts2))}: chose {p.clang_delta_std} with {st2.instances if st2 else 0} instances, expected {STDS[best2]}',
                        {'kind': 'std', 'n': n, 'tool': scen, 'tool2': scen2})
         shutil.rmtree(d, ignore_errors=True)
+    clang_pass_part(ctx)
     outs = ctx.model(lines)
     for sc, r, m, ln in zip(scens, reals, outs, lines):
         if r != m:
